@@ -181,6 +181,47 @@ def shrink(p, records, batch, style, fail_kind, budget=90):
         j = judge(k, exp, r)
         return j is not None and j[0] == fail_kind
 
+    # coarse pass: drop chunks of top-level statements (ddmin-style) and of records before the fine-grained pass
+    def chunk_pass(items, rebuild):
+        nonlocal runs
+        n = 2
+        while len(items) >= 2 and runs < budget:
+            size_ = max(1, len(items) // n)
+            removed = False
+            for start in range(0, len(items), size_):
+                cand = items[:start] + items[start + size_:]
+                if not cand or runs >= budget:
+                    continue
+                if rebuild(cand):
+                    items = cand
+                    n = max(n - 1, 2)
+                    removed = True
+                    break
+            if not removed:
+                if size_ == 1:
+                    break
+                n = min(len(items), n * 2)
+        return items
+
+    def try_recs(c):
+        nonlocal cur_recs
+        if still_fails(cur_p, c):
+            cur_recs = c
+            return True
+        return False
+
+    def try_prog(c):
+        nonlocal cur_p
+        cand = dict(cur_p, prog=c)
+        if still_fails(cand, cur_recs):
+            cur_p = cand
+            return True
+        return False
+    if len(cur_recs) >= 2:
+        chunk_pass(list(cur_recs), try_recs)
+    if len(cur_p["prog"]) >= 3:
+        chunk_pass(list(cur_p["prog"]), try_prog)
+
     improved = True
     while improved and runs < budget:
         improved = False
@@ -236,7 +277,7 @@ def check_program(res, p, records, batches=(None,), style=0, monitor="prog", ext
             continue
         fail_kind = j[0]
         sp, srecs = (p, records)
-        if do_shrink:
+        if do_shrink and not fail_kind.startswith("hang"):
             try:
                 sp, srecs = shrink(p, records, batch, style, fail_kind)
             except Exception:
@@ -364,10 +405,47 @@ LEAVES_BY_TYPE = {
 }
 
 
+ARITH = ["+", "-", "*", "/", "//", "%", "**", "&", "|", "^", "<<", ">>", ">>>"]
+
+
+def op_sigs(op):
+    """(left type, right type, result type) combinations on which the documentation defines the operator."""
+    if op in ARITH:
+        return [("int", "int", "int")]
+    if op == ".":
+        return [("str", "str", "str"), ("int", "int", "str"), ("str", "int", "str"), ("int", "str", "str")]
+    if op in ("<", "<=", ">", ">=", "==", "!="):
+        return [("int", "int", "bool"), ("str", "str", "bool"), ("int", "str", "bool")] + ([("bool", "bool", "bool")] if op in ("==", "!=") else [])
+    if op == "<=>":
+        return [("int", "int", "int"), ("str", "str", "int")]
+    if op in ("=~", "!=~"):
+        return [("str", "re", "bool")]
+    if op in ("&&", "||", "^^"):
+        return [("bool", "bool", "bool")]
+    if op in ("??", "???"):
+        out = []
+        for t in ("int", "str", "bool"):
+            out += [("absent", t, t), (t, t, t), ("absent", "absent", "absent")]
+        if op == "???":
+            out += [("empty", "int", "int"), ("empty", "str", "str")]
+        return out
+    raise ValueError(op)
+
+
+def _compat(res, want):
+    return res == want or (want == "re" and res == "str")
+
+
+def _leaf(rng, t):
+    if t == "re":
+        return ("str", rng.choice(G.REGEXES + ["a", "b$", "^ab"]))
+    return rng.choice(LEAVES_BY_TYPE[t])
+
+
 def pair_exprs(rng, per_pair):
-    """For every ordered pair (op1, op2) of binary operators: trees (a op1 b) op2 c and a op1 (b op2 c) with leaves
-    drawn until the reference can evaluate them (several leaf typings are tried: a pair is testable as soon as one
-    grouping has a defined value, because the other grouping then gives a different value or an error)."""
+    """For every ordered pair (op1, op2) of binary operators: trees (a op1 b) op2 c and a op1 (b op2 c), with leaf types
+    chosen from the operators' documented signatures so that the tree has a defined value; a pair is testable as soon as one
+    grouping has a defined value, because under the other grouping the same text gives a different value or an error."""
     out = []
     untestable = []
     ops = list(G.BINOPS)
@@ -375,13 +453,19 @@ def pair_exprs(rng, per_pair):
         for op2 in ops:
             found = 0
             for shape in (0, 1):
+                combos = []
+                for s1 in op_sigs(op1):
+                    for s2 in op_sigs(op2):
+                        if shape == 0 and _compat(s1[2], s2[0]):
+                            combos.append((s1[0], s1[1], s2[1]))      # (a op1 b) op2 c
+                        if shape == 1 and _compat(s2[2], s1[1]):
+                            combos.append((s1[0], s2[0], s2[1]))      # a op1 (b op2 c)
                 got_this_shape = 0
-                for attempt in range(60):
-                    tys = [rng.choice(["int", "int", "int", "str", "bool", "absent"]) for _ in range(3)]
-                    a, b, c = [rng.choice(LEAVES_BY_TYPE[t]) for t in tys]
-                    if "=~" in (op1, op2) or "!=~" in (op1, op2):
-                        # regex operand must be the right-hand leaf of the match operator
-                        pass
+                if not combos:
+                    continue
+                for attempt in range(80):
+                    tys = rng.choice(combos)
+                    a, b, c = [_leaf(rng, t) for t in tys]
                     e = ("bin", op2, ("bin", op1, a, b), c) if shape == 0 else ("bin", op1, a, ("bin", op2, b, c))
                     exp, it = eval_expr_ref(e)
                     if exp is None:
@@ -389,7 +473,7 @@ def pair_exprs(rng, per_pair):
                     # prefer trees whose two groupings differ in value (otherwise the pair says nothing)
                     alt = ("bin", op1, a, ("bin", op2, b, c)) if shape == 0 else ("bin", op2, ("bin", op1, a, b), c)
                     aexp, _ = eval_expr_ref(alt)
-                    if aexp == exp and attempt < 45:
+                    if aexp == exp and attempt < 60:
                         continue
                     out.append((e, exp, "pair:%s:%s:%d" % (op1, op2, shape), aexp != exp))
                     got_this_shape += 1
@@ -927,13 +1011,13 @@ def run(chk):
         cases = expr_cases(chk)
         chk.pmap(expr_batch_case, cases, label="expr")
     if not only or "shape" in only:
-        reps = 4 if q else 50
+        reps = 10 if q else 60
         names = sorted(S.SHAPES)
         cases = [{"shape": n, "seed": "%s/shape/%s/%d" % (chk.seed, n, i), "sample": (i == 0 and n in ("recursion_frames",))} for n in names for i in range(reps)]
         chk.pmap(shape_case, cases, label="shape")
         chk.extra["shapes"] = names
     if not only or "prog" in only:
-        n = 600 if q else 22000
+        n = 1000 if q else 22000
         cases = [{"seed": "%s/prog/%d" % (chk.seed, i), "sample": i < 2} for i in range(n)]
         chk.pmap(prog_case, cases, label="prog", chunksize=4)
     if not only or "emitverb" in only:
